@@ -107,7 +107,9 @@ def terminal_code(p, params, term, n):
               "reduce_max": "if a >= b { a } else { b }"}[term]
         s += f"    let r = {par}.reduce(|a: u8, b: u8| {op});\n    ORACLE.store(true, AO::Relaxed);\n    let e = {seq}.reduce(|a: u8, b: u8| {op});\n"
         s += '    assert!(r == e, "reduce differs from the sequential fold");\n'
-        s += "    kani::cover!(e.is_none());\n    kani::cover!(e.is_some());\n"
+        if any(o.kind in ("filter", "filter_map", "flat_map") for o in p.ops):
+            s += "    kani::cover!(e.is_none());\n"
+        s += "    kani::cover!(e.is_some());\n"
     elif term == "reduce_ref_min":
         assert k == "ref"
         s += f"    let r = {par}.reduce(|a: &u8, b: &u8| if *a <= *b {{ a }} else {{ b }}).copied();\n"
